@@ -350,6 +350,19 @@ theorem C12_declared_eq_reference_slice (start stop step k : Nat) (hstep : 0 < s
 
 example : sliceLen 1 12 3 = 4 ∧ 1 + 3 * 3 < 12 ∧ ¬ (1 + 4 * 3 < 12) := by decide
 
+/-- `Array.blocks[...]` (integers, slices and lists of block indexes in any order, with repeats): the declared
+chunks are the real sizes of the selected blocks, so the block passed through for out coordinate `coords` — input
+block `sel[coords]` — has exactly the extents of its region, short last blocks included. -/
+theorem C12_block_shape_ok_blocks (x : Chunks) (sels : List (List Nat)) (d : Chunks) (hd : blocksChunkss x sels = some d)
+    (coords s : List Nat) (he : extents d coords = some s) : blocksBlock x sels coords = some s :=
+  blocksBlock_ok x sels d hd coords s he
+
+/-- `arange(9, chunks=4).blocks[[0, 2]]`: declared ((4, 1),) — shape (5,) — and block 1 is the short block -/
+example : blocksChunkss [[4, 4, 1]] [[0, 2]] = some [[4, 1]] ∧ shapeOf [[4, 1]] = [5]
+    ∧ blocksBlock [[4, 4, 1]] [[0, 2]] [1] = some [1] ∧ arrChunks [[4, 1]] = some [[4, 1]] := by decide
+/-- a selection whose sizes are not a regular grid is rejected by `to_chunksize` ("Array must have regular chunks") -/
+example : blocksChunkss [[4, 4, 1]] [[2, 0]] = some [[1, 4]] ∧ arrChunks [[1, 4]] = none := by decide
+
 /-! ### tall-and-skinny QR -/
 
 /-- every block written by the first step of `qr` matches its region — for every accepted input (the repaired
